@@ -20,6 +20,10 @@ open Migrate Drv.Engine
                                any point leaves), ' ## ' separated; state unchanged
     durablesshipped
     pick <n>                   the file becomes the n-th state of the last `durables` answer
+    c28prodrun                 run_migrations(conn, sources=_SQLITE_SOURCES): the regenerated production list
+                               (server directory, then the dbos package's directory)
+    c28prodsession             the same as one process start (connect / run / close without commit)
+    c28prodtable               the regenerated production sources after loading: pkg=name:version:<stmts> ...
 
   STR = 's' + comma separated code points;  SOURCES = n (STR FILES)*;  FILES = n (STR STR STMTS)*;
   STMTS = n STMT*;  STMT = ct b STR n (STR STR)* | ac STR STR STR | ci b b STR STR n STR* | inv -/
@@ -95,6 +99,11 @@ def stepDb (db : Db) (line : String) : Db × String :=
     | some (srcs, []) => showResult (runMigrations srcs db)
     | _ => (db, "bad-op")
   | ["runshipped"] => showResult (runMigrations shippedSources db)
+  | ["c28prodrun"] => showResult (runMigrations productionSources db)
+  | ["c28prodtable"] =>
+    (db, " | ".intercalate (productionSources.map fun src =>
+      src.1 ++ "=" ++ " ".intercalate ((loadMigrations src.2).map fun m =>
+        s!"{m.name}:{m.version}:<{";".intercalate (m.stmts.map showStmt)}>")))
   | ["shipped"] =>
     (db, " ".intercalate ((loadMigrations shippedFiles).map fun m =>
       s!"{m.name}:{m.version}:<{";".intercalate (m.stmts.map showStmt)}>"))
@@ -121,6 +130,7 @@ def step (st : Db × List Db) (line : String) : (Db × List Db) × String :=
     match counted source ts with
     | some (srcs, []) => let (db', s) := showSession (session srcs db); ((db', st.2), s)
     | _ => (st, "bad-op")
+  | ["c28prodsession"] => let (db', s) := showSession (session productionSources db); ((db', st.2), s)
   | ["sessionshipped"] => let (db', s) := showSession (session shippedSources db); ((db', st.2), s)
   | "durables" :: ts =>
     match counted source ts with
